@@ -2,6 +2,22 @@
 rows() / cells() / used_cells() as double-ended cursors under every interleaving of next / next_back /
 size_hint, headers(), Index<usize>, Index<(usize, usize)>, get.  (The write side is C05.)"""
 LEVEL = "model_checking"
+import os, subprocess
+import vlib
+
+
+def apalache(ctx, tladir, module, args, timeout=600):
+    """Apalache (symbolic) on a typed module; returns True iff it reports no error"""
+    src = os.path.join(vlib.ROOT, "tla", tladir)
+    out = os.path.join(ctx.work, "apalache_%s_%s.out" % (module, "_".join(a.split("=")[-1] for a in args)))
+    cmd = ["timeout", str(timeout), "apalache-mc", "check", "--out-dir=" + os.path.join(ctx.work, "apalache-out")] + args + [module + ".tla"]
+    p = subprocess.run(cmd, cwd=src, stdout=subprocess.PIPE, stderr=subprocess.STDOUT, text=True)
+    open(out, "w").write(p.stdout)
+    if "EXITCODE: OK" in p.stdout:
+        return True, out
+    if "Checker has found an error" in p.stdout:
+        return False, out
+    raise vlib.ToolError("apalache failed on %s (see %s)" % (module, out))
 
 
 def run(ctx):
@@ -26,3 +42,13 @@ def run(ctx):
         ctx.extra["trace_events_validated"] = v["events"]
     else:
         ctx.fail("trace-rejected:Trace_RangeViews", {"kind": "trace", "trace": trace, "info": v["info"], "tlc_output": v["out"]})
+    # unbounded complement (Apalache, symbolic): the rows / cells cursor over a view of ANY length N -- IndInv of
+    # tla/range/CursorInd.tla is inductive, so front and back never cross, no item is yielded twice, an exhausted
+    # cursor stays exhausted and the hint is exact, for every N
+    ctx.rules.append("CursorInd (Apalache): Init => Safety and IndInv /\\ Next => Safety' with the view length N symbolic")
+    for args in (["--cinit=ConstInit", "--init=Init", "--inv=Safety", "--length=0"],
+                 ["--cinit=ConstInit", "--init=IndInit", "--inv=Safety", "--length=1"]):
+        ok, out = apalache(ctx, "range", "CursorInd", args)
+        if not ok:
+            ctx.fail("spec:CursorInd:" + args[1], {"kind": "apalache", "module": "CursorInd", "args": args, "output": out})
+    ctx.extra["apalache_inductive_invariant"] = "CursorInd.IndInv (N symbolic)"
